@@ -377,12 +377,13 @@ def gen_scenario(rng: random.Random, kind=None) -> Scenario:
 
 
 
-def gen_decoy(rng: random.Random):
+def gen_decoy(rng: random.Random, twin=None):
     """C10, 'references the query does not align to listed in a different order': a sparse target reference (one label
     every 3-17 kb), a dense decoy reference nothing aligns to (one label every 2-5 kb), chimeric molecules (a thinned,
     jittered copy of a target window followed by a dense tail of junk: their true primary peak is only moderate, the
     decoy's peak may be higher while its score is lower) and clean bystanders.  Returns the scenario with the decoy
-    BEFORE the target (id 1) and the one with the decoy AFTER it (id 90)."""
+    BEFORE the target (id 1) and the one with the decoy AFTER it (id 90).  Half of the decoys are TWINS of the target
+    (same length, same number of labels, other positions)."""
     def labels(length, lo, hi):
         out, p = [], rng.randrange(1000, 5000)
         while p < length - 1000:
@@ -392,6 +393,12 @@ def gen_decoy(rng: random.Random):
     tlen = rng.choice([1_200_000, 2_000_000])
     T = labels(tlen, 3000, 17000)
     D = labels(rng.choice([900_000, 1_500_000]), 2000, 5000)
+    dlen = D[-1] + 1000
+    if (rng.random() < 0.5) if twin is None else twin:
+        # a TWIN decoy: exactly the target's length and number of labels, other positions -- whatever is remembered
+        # about a reference under a key coarser than the molecule itself (length, label count, both) now collides
+        D = sorted(rng.sample(range(1000, tlen - 1000), len(T)))
+        dlen = tlen
     queries = []
     ids = rng.sample(range(2, 60), rng.randrange(3, 6))
     for k, qi in enumerate(ids):
@@ -414,8 +421,8 @@ def gen_decoy(rng: random.Random):
         queries.append((qi, Q[-1] + 1000, Q))
     extra = {"-p": rng.choice([1, 1, 1, 2, 3])}
     tid = 7
-    before = Scenario([(1, D[-1] + 1000, D), (tid, tlen, T)], sorted(queries), dict(gens.DEFAULT_P), extra, None, "decoy-before")
-    after = Scenario([(tid, tlen, T), (90, D[-1] + 1000, D)], sorted(queries), dict(gens.DEFAULT_P), extra, None, "decoy-after")
+    before = Scenario([(1, dlen, D), (tid, tlen, T)], sorted(queries), dict(gens.DEFAULT_P), extra, None, "decoy-before")
+    after = Scenario([(tid, tlen, T), (90, dlen, D)], sorted(queries), dict(gens.DEFAULT_P), extra, None, "decoy-after")
     return before, after
 
 
